@@ -168,17 +168,25 @@ def exp_spline(chk, P):
     mod = "atsim.potentials.spline"
     cls = P.cls(mod, "Exp_Spline")
     site = cls.site_of("_init_spline_coefficients")
-    for scenario in ("positive end values", "shifted (an end value <= 0)"):
+    for scenario, s_nonpos, e_nonpos in (("positive end values", False, False), ("shifted (both end values <= 0)", True, True),
+                                         ("shifted (only the detach value <= 0)", True, False),
+                                         ("shifted (only the attach value <= 0)", False, True)):
         I = F.make_interp(P)
         cap = SolveCapture()
         numpy_model(I, cap, "B")
-        shift = scenario.startswith("shifted")
+        shift = s_nonpos or e_nonpos
 
-        def assume(cond, shift=shift):
-            if isinstance(cond, Cond) and cond.kind == "cmp" and cond.args[0] == "<=":
-                return shift
-            if isinstance(cond, Cond) and cond.kind == "or":
-                return shift
+        def assume(cond, s_nonpos=s_nonpos, e_nonpos=e_nonpos):
+            if isinstance(cond, Cond) and cond.kind == "cmp" and cond.args[0] in ("<=", "<"):
+                left = repr(cond.args[1])
+                if left == "sv":
+                    return s_nonpos
+                if left == "ev":
+                    return e_nonpos
+                if left in ("sv - ev", "-ev + sv"):        # min(sy, ey): which one is smaller
+                    return s_nonpos and not e_nonpos
+                if left in ("ev - sv", "-sv + ev"):
+                    return e_nonpos and not s_nonpos
             return None
         assume.text = "Exp_Spline scenario: " + scenario
         I.assumption_fns.append(assume)
@@ -188,7 +196,7 @@ def exp_spline(chk, P):
         if len(cap.systems) != 1:
             raise AnalysisError("Exp_Spline solves %d linear systems (expected 1)" % len(cap.systems))
         A, B, names = cap.systems[0]
-        tag = "shift" if shift else "noshift"
+        tag = {"positive end values": "noshift", "shifted (both end values <= 0)": "shift"}.get(scenario, scenario)
         # the appended constant C and the shifted end values
         if not (isinstance(coefs, ListV) and len(coefs.items) == 7):
             chk.ob("C10.O2", "[%s] seven coefficients (B0..B5, C) are produced" % scenario, False, site=site, found=coefs, expect="7-tuple",
